@@ -18,6 +18,7 @@ type Cond struct {
 	Const *bool `json:"const,omitempty"` // constant condition
 	Lang string `json:"lang,omitempty"` // "" = expr, "xpath"
 	Obj  string `json:"obj,omitempty"`  // boolean data object (expr: getDataObject)
+	Raw  string `json:"raw,omitempty"`  // literal expression text (XML-escaped); the model cannot evaluate it
 }
 
 type Flow struct {
@@ -51,6 +52,7 @@ type Node struct {
 	Attached string   `json:"attached,omitempty"` // boundary: host activity
 	Interrupting bool `json:"interrupting,omitempty"`
 	Counter  string   `json:"counter,omitempty"` // task writes this loop counter
+	Writes   map[string]any `json:"writes,omitempty"` // extra declared results the driver answers with
 }
 
 type Graph struct {
@@ -169,6 +171,12 @@ func condText(c *Cond) (lang string, text string) {
 	lang = exprLang
 	if c.Lang == "xpath" {
 		lang = xpathLang
+	}
+	if c.Lang == "spy" {
+		lang = spyLang
+	}
+	if c.Raw != "" {
+		return lang, c.Raw
 	}
 	switch {
 	case c.Const != nil:
